@@ -584,6 +584,61 @@ def hand_built_trees(rng):
 
 # ----------------------------------------------------------------------------- run
 
+REUSE_FIRST = 'function f(a) { if (a) { while (a) { switch (a) { case 1: { g({b: function () { return [1, 2]; }}); } } } } }'
+REUSE_NEXT = ['if (a) { b; } else { c; }', 'function g() { return {x: 1, y: {z: 2}}; }\nvar k = 1;', 'a;',
+              'switch (a) { case 1: b; break; default: { c; } }']
+
+
+def reused_printer_scenario(ctx, indents):
+    from calmjs.parse.parsers.es5 import parse
+    from calmjs.parse.unparsers import es5
+    from calmjs.parse import asttypes
+
+    class Undefined(asttypes.Node):     # a node class no definition exists for: the walk raises when it reaches it
+        pass
+    bad = None
+    for ind in indents[:6]:
+        for how in ('abandoned', 'raised', 'closed'):
+            printer = es5.pretty_printer(indent_str=ind)
+            first = parse(REUSE_FIRST)
+            try:
+                if how == 'raised':
+                    # graft the undefined node deep inside the nested blocks
+                    blk = first.children()[0].elements[0].consequent.children()[0].statement
+                    blk._children_list.append(Undefined())
+                    try:
+                        for f in printer(first):
+                            pass
+                    except Exception:
+                        pass
+                else:
+                    g = printer(first)
+                    depth = 0
+                    for f in g:
+                        depth += f.text.count('{') - f.text.count('}')
+                        if depth >= 5:
+                            break
+                    if how == 'closed':
+                        g.close()
+                    del g
+            except Exception as e:      # the set-up itself must not decide anything
+                ctx.bump('reuse:setup-failed:%s' % type(e).__name__)
+                continue
+            for text in REUSE_NEXT:
+                out = ''.join(f.text for f in printer(parse(text)))
+                problems = judge_text(out, ind)
+                ctx.case(('reuse', how, text, ind), nontrivial=True)
+                ctx.bump('reuse:' + how)
+                if problems and bad is None:
+                    bad = (how, text, ind, out, problems)
+    if bad:
+        how, text, ind, out, problems = bad
+        ctx.violation('pretty output of a printer used again after a call that was %s is not indented by block depth: %s' % (how, problems[0]),
+                      dict(scenario='reused printer', first=REUSE_FIRST, how=how, text=text, indent=ind, output=out, problems=problems), True)
+    ctx.obligation('judge: a printer object prints correctly indented text after an abandoned / closed / raising call', bad is None,
+                   'judge', 'printer reuse over %d indent strings x 3 kinds of unfinished first call x %d programs' % (min(6, len(indents)), len(REUSE_NEXT)))
+
+
 def run(ctx):
     ctx.rule('programs: fixed list of block/switch/object/comment shapes, repo test manifests (G1), grammar-generated programs '
              'with random layout (G2, genjs), own generator of nested statements rich in empty blocks, empty case bodies, nested '
@@ -640,6 +695,12 @@ def run(ctx):
                       dict(text=small, with_comments=wc, indent=ind, output=r[1], problems=r[0], original=text), True)
     ctx.obligation('judge: indentation = indent x depth on every token-starting line, depth 0 at end, one trailing newline',
                    not failures, 'judge', '%d (program, comments, indent) outputs judged' % njudged)
+
+    # ---- one printer OBJECT used again after a call that was abandoned half way (the generator dropped while inside nested
+    # blocks) and after a call that raised inside a block (a node without definition): the property is about every pretty
+    # output, also the n-th one of a printer
+    if not failures:
+        reused_printer_scenario(ctx, indents)
 
     # ---- tie
     if not getattr(ctx, 'drivers_ok', True):
